@@ -362,7 +362,11 @@ func gen(t *rapid.T) Case {
 			c.Good = append(c.Good, ymodel.Source{Name: name, Text: fmt.Sprintf("module fam {\n namespace \"urn:fam\";\n prefix f;\n%s%s typedef t { type %s; units \"r%d\"; }\n grouping g { leaf from-r%d { type t; } }\n identity id;\n identity sub%d { base id; }\n typedef lt { type identityref { base id; } }\n leaf ll { type lt; }\n%s container c%d { leaf own { type t; } }\n container c { }\n}\n", inc, rev, kinds[i], i, i, i, viaSub, i)})
 		}
 		if withSub {
-			c.Good = append(c.Good, ymodel.Source{Name: "famsub.yang", Text: "submodule famsub {\n belongs-to fam { prefix f; }\n identity sid;\n typedef st { type identityref { base sid; } }\n leaf insub { type st; }\n}\n"})
+			c.Good = append(c.Good, ymodel.Source{Name: "famsub@2019-05-05.yang", Text: "submodule famsub {\n belongs-to fam { prefix f; }\n revision 2019-05-05;\n identity sid;\n identity sd19 { base sid; }\n typedef st { type identityref { base sid; } }\n leaf insub { type st; }\n}\n"})
+			if rapid.Bool().Draw(t, "later-submodule-revision") {
+				// a later revision of the submodule may arrive after a processing run and supersede the first
+				c.Good = append(c.Good, ymodel.Source{Name: "famsub@2021-12-31.yang", Text: "submodule famsub {\n belongs-to fam { prefix f; }\n revision 2021-12-31;\n identity sid;\n identity sd21 { base sid; }\n typedef st { type identityref { base sid; } units \"later\"; }\n leaf insub { type st; }\n leaf insub21 { type st; }\n}\n"})
+			}
 		}
 		c.Good = append(c.Good, ymodel.Source{Name: "famuser.yang", Text: "module famuser {\n namespace \"urn:famuser\";\n prefix u;\n import fam { prefix f; }\n leaf l { type f:t; }\n container k { uses f:g; }\n grouping lg { uses f:g; leaf viat { type f:t; } }\n container k2 { uses lg; }\n leaf r { type identityref { base f:id; } }\n typedef tid { type identityref { base f:id; } }\n leaf viatd { type tid; }\n typedef tt { type f:t; }\n leaf viatt { type tt; }\n identity mine { base f:id; }\n augment \"/f:c\" { leaf added { type string; } }\n}\n"})
 		if rapid.Bool().Draw(t, "dated-user") {
